@@ -583,11 +583,532 @@ Proof.
   - intros x y. apply (placed_ext2 s); [ .. | apply (i_placed _ I)]; simp_st;
       repeat match goal with |- context[Nat.eqb ?a ?b] => destruct (Nat.eqb a b) eqn:? end; neq_tac; subst;
       rewrite ?Nat.eqb_refl; cbn; auto.
-  - intros j x. generalize (i_waits _ I j x). unfold waits. simp_st.
-    destruct (i_waits _ I t w) as [A0 B0]. rewrite W in A0, B0. cbn [opt_eqb] in A0. rewrite Nat.eqb_refl in A0.
-    repeat match goal with |- context[Nat.eqb ?a ?b] => destruct (Nat.eqb a b) eqn:? end; neq_tac; subst;
-      rewrite ?Nat.eqb_refl; cbn; rewrite ?W; cbn [opt_eqb]; rewrite ?Nat.eqb_refl;
-      intros [A B]; (split; [|try tauto; try (intros; exfalso; congruence)]);
-      rewrite ?cnt_remove_same; try (rewrite cnt_remove_other by congruence); try lia; auto.
-    all: try (replace (Nat.eqb w x) with false by (symmetry; apply Nat.eqb_neq; congruence); lia).
+  - intros j x.
+    set (s' := modth (modth s w (fun th => set_th_joiners th (remove_tid t (th_joiners th)))) t (fun th => set_th_waitq th None)).
+    assert (J : th_joiners (s_th s' x) = if Nat.eqb x w then remove_tid t (th_joiners (s_th s w)) else th_joiners (s_th s x)).
+    { unfold s'. simp_st. destruct (Nat.eqb x t) eqn:E1; neq_tac; subst.
+      - destruct (Nat.eqb t w) eqn:E2; neq_tac; subst; reflexivity.
+      - destruct (Nat.eqb x w) eqn:E2; neq_tac; subst; reflexivity. }
+    assert (Wq : th_waitq (s_th s' j) = if Nat.eqb j t then None else th_waitq (s_th s j)).
+    { unfold s'. simp_st. destruct (Nat.eqb j t) eqn:E1; neq_tac; subst.
+      - destruct (Nat.eqb t w) eqn:E2; neq_tac; subst; reflexivity.
+      - destruct (Nat.eqb j w) eqn:E2; neq_tac; subst; reflexivity. }
+    assert (St : th_state (s_th s' j) = th_state (s_th s j)).
+    { unfold s'. simp_st. destruct (Nat.eqb j t) eqn:E1; neq_tac; subst.
+      - destruct (Nat.eqb t w) eqn:E2; neq_tac; subst; reflexivity.
+      - destruct (Nat.eqb j w) eqn:E2; neq_tac; subst; reflexivity. }
+    unfold waits. fold s'. rewrite J, Wq, St.
+    destruct (i_waits _ I j x) as [A B]. destruct (i_waits _ I t w) as [A0 B0].
+    rewrite W in A0. cbn [opt_eqb] in A0. rewrite Nat.eqb_refl in A0.
+    destruct (Nat.eqb j t) eqn:Ejt; neq_tac.
+    + subst j. cbn [opt_eqb]. split; [|congruence].
+      destruct (Nat.eqb x w) eqn:Exw; neq_tac.
+      * subst x. rewrite cnt_remove_same. lia.
+      * rewrite A, W. cbn [opt_eqb]. eqb_false w x. reflexivity.
+    + split; auto. destruct (Nat.eqb x w) eqn:Exw; neq_tac; auto.
+      subst x. rewrite cnt_remove_other by congruence. auto.
+Qed.
+
+(* ---- the model's functions ------------------------------------------------------------------ *)
+Lemma inv1_same : forall s s', s_th s' = s_th s -> s_vc s' = s_vc s -> Inv1 s -> Inv1 s'.
+Proof.
+  intros s s' Ht Hv I. constructor.
+  - intros t v. generalize (i_placed _ I t v). unfold placed. now rewrite Ht, Hv.
+  - intros j x. generalize (i_waits _ I j x). unfold waits. now rewrite Ht.
+Qed.
+
+Lemma inv1_vc_neutral : forall s v g,
+  (forall x, v_runq (g x) = v_runq x /\ v_sleepq (g x) = v_sleepq x /\ v_standby (g x) = v_standby x) ->
+  Inv1 s -> Inv1 (modvc s v g).
+Proof.
+  intros s v g Hg I. constructor.
+  - intros t y. apply (placed_ext s); [reflexivity | .. | apply (i_placed _ I)]; simp_st;
+      (destruct (Nat.eqb y v) eqn:E; auto; neq_tac; subst y; destruct (Hg (s_vc s v)) as (a & b & c); congruence).
+  - intros j x. apply (waits_ext s); auto. apply (i_waits _ I).
+Qed.
+
+Lemma dequeue_vc : forall s t, s_vc (dequeue s t) = s_vc s.
+Proof. intros. unfold dequeue. destruct (th_waitq (getth s t)); reflexivity. Qed.
+Lemma dequeue_self : forall s t,
+  th_waitq (s_th (dequeue s t) t) = None /\ th_state (s_th (dequeue s t) t) = th_state (s_th s t) /\
+  th_vcpu (s_th (dequeue s t) t) = th_vcpu (s_th s t).
+Proof.
+  intros. unfold dequeue, getth. destruct (th_waitq (s_th s t)) as [w|] eqn:W; auto.
+  simp_st. rewrite Nat.eqb_refl. destruct (Nat.eqb t w) eqn:E; neq_tac; subst; cbn; auto.
+Qed.
+
+Lemma inv1_wake : forall s v t e, Inv1 s -> th_state (s_th s t) = SLEEPING -> Inv1 (wake s v t e).
+Proof.
+  intros s v t e I Es. unfold wake.
+  set (s0 := modth s t (fun th => set_th_err th e)).
+  assert (I0 : Inv1 s0). { apply inv1_neutral; [intro th; repeat split | auto]. }
+  assert (E0 : th_state (s_th s0 t) = SLEEPING). { unfold s0. simp_st. rewrite Nat.eqb_refl. exact Es. }
+  pose proof (inv1_dequeue s0 t I0) as I1.
+  destruct (dequeue_self s0 t) as (d1 & d2 & d3).
+  unfold getth.
+  destruct (Nat.eqb (th_vcpu (s_th (dequeue s0 t) t)) v) eqn:Ev.
+  - neq_tac. apply (inv1_wake_same (dequeue s0 t) v t I1); congruence.
+  - apply (inv1_wake_cross (dequeue s0 t) _ t I1); congruence.
+Qed.
+
+Lemma wake_runq_head : forall s v t e c rest, t <> c ->
+  v_runq (s_vc s v) = c :: rest ->
+  exists rest', v_runq (s_vc (wake s v t e) v) = c :: rest' /\
+                (forall x, cnt x rest <= cnt x rest').
+Proof.
+  intros s v t e c rest N Hq. unfold wake, getth.
+  set (s1 := dequeue (modth s t (fun th => set_th_err th e)) t).
+  assert (V : s_vc s1 = s_vc s). { unfold s1. rewrite dequeue_vc. reflexivity. }
+  destruct (Nat.eqb (th_vcpu (s_th s1 t)) v) eqn:Ev.
+  - simp_st. rewrite Nat.eqb_refl, V. cbn. rewrite Hq. exists (rest ++ [t]). split; auto.
+    intro x. rewrite cnt_app. lia.
+  - simp_st. rewrite V. neq_tac. destruct (Nat.eqb v (th_vcpu (s_th s1 t))) eqn:E2; neq_tac; [congruence|].
+    rewrite Hq. exists rest. split; auto.
+Qed.
+
+Lemma dequeue_state : forall s t x, th_state (s_th (dequeue s t) x) = th_state (s_th s x).
+Proof.
+  intros. unfold dequeue, getth. destruct (th_waitq (s_th s t)) as [w|]; auto. simp_st.
+  destruct (Nat.eqb x t) eqn:E1; neq_tac; subst.
+  - destruct (Nat.eqb t w) eqn:E2; neq_tac; subst; reflexivity.
+  - destruct (Nat.eqb x w) eqn:E2; neq_tac; subst; reflexivity.
+Qed.
+
+Lemma wake_other_thread : forall s v t e x, x <> t ->
+  th_state (s_th (wake s v t e) x) = th_state (s_th s x).
+Proof.
+  intros s v t e x N. unfold wake, getth.
+  set (s0 := modth s t (fun th => set_th_err th e)).
+  assert (D : th_state (s_th (dequeue s0 t) x) = th_state (s_th s x)).
+  { rewrite dequeue_state. unfold s0. simp_st. apply Nat.eqb_neq in N. now rewrite N. }
+  destruct (Nat.eqb (th_vcpu (s_th (dequeue s0 t) t)) v); simp_st; apply Nat.eqb_neq in N; rewrite N; exact D.
+Qed.
+
+Lemma inv1_interrupt : forall s v t e s', Inv1 s -> do_interrupt s v t e = Some s' -> Inv1 s'.
+Proof.
+  intros s v t e s' I. unfold do_interrupt, getth.
+  destruct (th_state (s_th s t)) eqn:Es; intro H; try (inversion H; subst; auto; fail).
+  - destruct (Z.eqb (th_err (s_th s t)) 0); inversion H; subst; auto.
+    apply inv1_neutral; [intro th; repeat split | auto].
+  - destruct (lock_free (th_lock (s_th s t))); inversion H; subst. now apply inv1_wake.
+Qed.
+
+Lemma head_not_second : forall s v c n rest, Inv1 s -> v_runq (s_vc s v) = c :: n :: rest -> c <> n.
+Proof.
+  intros s v c n rest I Hq E. subst n.
+  assert (Hc : cnt c (v_runq (s_vc s v)) >= 1) by (rewrite Hq; apply cnt_head).
+  destruct (in_runq_facts s c v (i_placed _ I c v) Hc) as (_ & _ & _ & l4 & _).
+  rewrite Hq, !cnt_cons, Nat.eqb_refl in l4. lia.
+Qed.
+
+Lemma inv1_yield : forall s v ce d, Inv1 s ->
+  (forall c rest, v_runq (s_vc s v) = c :: rest -> th_state (s_th s c) = RUNNING) ->
+  Inv1 (do_yield s v ce d).
+Proof.
+  intros s v ce d I Hr. unfold do_yield, getvc.
+  destruct (v_runq (s_vc s v)) as [|c [|n rest]] eqn:Hq; try (apply (inv1_same s); auto; fail).
+  pose proof (head_not_second s v c n rest I Hq) as Ncn.
+  assert (In : Inv1 (switch_in s n)).
+  { apply (inv1_switch_in s v); auto. rewrite Hq, !cnt_cons, Nat.eqb_refl. lia. }
+  apply (inv1_rotate (switch_in s n) v c (n :: rest)); auto.
+  - rewrite switch_in_other by auto. eapply Hr; eauto.
+  - intro th. destruct ce; cbn; repeat split.
+Qed.
+
+Lemma inv1_do_sleep : forall s v exp wq d, Inv1 s ->
+  (forall c rest, v_runq (s_vc s v) = c :: rest -> th_state (s_th s c) = RUNNING) ->
+  Inv1 (do_sleep s v exp wq d).
+Proof.
+  intros s v exp wq d I Hr. unfold do_sleep, getvc.
+  destruct (v_runq (s_vc s v)) as [|c [|n rest]] eqn:Hq; try (apply (inv1_same s); auto; fail).
+  pose proof (head_not_second s v c n rest I Hq) as Ncn.
+  assert (In : Inv1 (switch_in s n)).
+  { apply (inv1_switch_in s v); auto. rewrite Hq, !cnt_cons, Nat.eqb_refl. lia. }
+  match goal with |- Inv1 (if ?b then set_s_tie ?X true else ?X) =>
+    assert (IX : Inv1 X); [| destruct b; auto; apply (inv1_same X); auto] end.
+  apply (inv1_sleep (switch_in s n) v c (n :: rest)); auto.
+  rewrite switch_in_other by auto. eapply Hr; eauto.
+Qed.
+
+Lemma inv1_do_create : forall s v k jn ws, Inv1 s -> th_state (s_th s k) = NOTCREATED -> Inv1 (do_create s v k jn ws).
+Proof.
+  intros s v k jn ws I En. unfold do_create, getth.
+  apply (inv1_create s v k _ (fun x => (v_nthreads x + 1)%Z)); auto.
+Qed.
+
+Lemma head_running : forall s v, 
+  (forall c rest, v_runq (s_vc s v) = c :: rest -> th_state (s_th s c) = RUNNING) -> True.
+Proof. auto. Qed.
+
+Lemma inv1_do_die : forall s v rv s', Inv1 s ->
+  (forall c rest, v_runq (s_vc s v) = c :: rest -> th_state (s_th s c) = RUNNING) ->
+  do_die s v rv = Some s' -> Inv1 s'.
+Proof.
+  intros s v rv s' I Hr. unfold do_die, getvc, getth.
+  destruct (v_runq (s_vc s v)) as [|c [|n rest]] eqn:Hq;
+    try (intro H; inversion H; subst; apply (inv1_same s); auto; fail).
+  cbv zeta. match goal with |- (if negb ?b then _ else _) = _ -> _ => destruct b end; cbn [negb]; [|discriminate].
+  intro H. inversion H; subst s'; clear H.
+  pose proof (Hr c _ eq_refl) as Ec.
+  pose proof (head_not_second s v c n rest I Hq) as Ncn.
+  (* cond.notify_one *)
+  set (s1 := match th_joiners (s_th s c) with j :: _ => wake s v j (-1) | [] => s end).
+  assert (S1 : Inv1 s1 /\ (exists rest', v_runq (s_vc s1 v) = c :: rest' /\ cnt n rest' >= 1) /\
+               th_state (s_th s1 c) = RUNNING).
+  { unfold s1. destruct (th_joiners (s_th s c)) as [|j js] eqn:Ej.
+    - split; [auto|split; [|auto]]. exists (n :: rest). split; auto. rewrite cnt_cons, Nat.eqb_refl. lia.
+    - destruct (i_waits _ I j c) as [A B]. rewrite Ej, cnt_cons, Nat.eqb_refl in A.
+      assert (Wj : th_waitq (s_th s j) <> None).
+      { destruct (th_waitq (s_th s j)); [discriminate|]. cbn in A. lia. }
+      pose proof (B Wj) as Sj.
+      assert (Njc : j <> c) by (intro; subst; congruence).
+      split; [|split].
+      + now apply inv1_wake.
+      + destruct (wake_runq_head s v j (-1) c (n :: rest) Njc Hq) as (r' & E1 & E2).
+        exists r'. split; auto. specialize (E2 n). rewrite cnt_cons, Nat.eqb_refl in E2. lia.
+      + rewrite wake_other_thread; auto. }
+  destruct S1 as (I1 & (rest' & Hq1 & Hn1) & Ec1).
+  assert (I2 : Inv1 (switch_in s1 n)).
+  { apply (inv1_switch_in s1 v); auto. rewrite Hq1, cnt_cons. lia. }
+  apply (inv1_die (switch_in s1 n) v c rest' _ (PDie c) (fun x => (v_nthreads x - 1)%Z)); auto.
+  rewrite switch_in_other; auto.
+Qed.
+
+Lemma inv1_do_migrate : forall s v t u s' b, Inv1 s -> do_migrate s v t u = Some (s', b) -> Inv1 s'.
+Proof.
+  intros s v t u s' b I. unfold do_migrate, getth, getvc.
+  destruct (negb _); [discriminate|].
+  match goal with |- (if ?c then _ else _) = _ -> _ => destruct c eqn:C end; intro H; inversion H; subst; auto.
+  repeat (apply andb_true_iff in C; destruct C as [C ?]).
+  apply (inv1_migrate s v u t (fun x => (v_nthreads x - 1)%Z) (fun x => (v_nthreads x + 1)%Z)); auto.
+  - match goal with H : negb (Nat.eqb u v) = true |- _ => apply negb_true_iff in H; now apply Nat.eqb_neq in H end.
+  - match goal with H : mem_tid _ _ = true |- _ => now apply mem_cnt in H end.
+  - destruct (th_state (s_th s t)); try discriminate; reflexivity.
+Qed.
+
+Lemma inv1_exec_pend : forall s v, Inv1 s -> Inv1 (exec_pend s v).
+Proof.
+  intros s v I. unfold exec_pend, getvc, getth.
+  assert (I0 : Inv1 (modvc s v (fun x => set_v_pend x PNone))).
+  { apply inv1_vc_neutral; [intro x; repeat split | auto]. }
+  destruct (v_pend (s_vc s v)) as [|from d|from]; auto.
+  - destruct d as [|t|t u]; auto.
+    + apply inv1_neutral; [intro th; repeat split | auto].
+    + destruct (do_migrate _ v t u) as [[s1 b]|] eqn:M; auto. eapply inv1_do_migrate; eauto.
+  - destruct (th_joinable _); (apply inv1_neutral; [intro th; repeat split | auto]).
+Qed.
+
+Lemma inv1_ret : forall s c r e, Inv1 s -> Inv1 (ret s c r e).
+Proof.
+  intros. unfold ret. apply inv1_neutral; [intro th; repeat split|]. apply (inv1_same s); auto.
+Qed.
+Lemma inv1_setk : forall s c k, Inv1 s -> Inv1 (setk s c k).
+Proof. intros. unfold setk. apply inv1_neutral; [intro th; repeat split | auto]. Qed.
+Lemma inv1_sen : forall s c, Inv1 s -> Inv1 (fst (fst (set_error_number s c))).
+Proof.
+  intros. unfold set_error_number. destruct (Z.eqb _ 0); cbn; auto.
+  apply inv1_neutral; [intro th; repeat split | auto].
+Qed.
+
+(* the CURRENT thread of v is RUNNING: kept through the neutral updates *)
+Definition head_run (s : state) (v : nat) : Prop :=
+  forall c rest, v_runq (s_vc s v) = c :: rest -> th_state (s_th s c) = RUNNING.
+Lemma head_run_neutral : forall s v t f, (forall th, same_sched (f th) th) -> head_run s v -> head_run (modth s t f) v.
+Proof.
+  unfold head_run. intros s v t f Hf H c rest. simp_st. intro Hq.
+  destruct (Nat.eqb c t) eqn:E; neq_tac; subst; eauto.
+  destruct (Hf (s_th s t)) as (h1 & _). rewrite h1. eauto.
+Qed.
+Lemma head_run_same : forall s s' v, s_th s' = s_th s -> s_vc s' = s_vc s -> head_run s v -> head_run s' v.
+Proof. unfold head_run. intros s s' v -> ->. auto. Qed.
+
+Lemma inv1_join_check : forall s v c j, Inv1 s -> head_run s v -> Inv1 (join_check s v c j).
+Proof.
+  intros s v c j I Hr. unfold join_check, getth.
+  destruct (tstate_eqb _ NOTCREATED). { apply (inv1_same s); auto. }
+  destruct (negb _); auto.
+  destruct (tstate_eqb _ DONE).
+  - apply inv1_ret. apply inv1_neutral; [intro th; repeat split | auto].
+  - destruct (negb _); auto.
+    apply inv1_do_sleep.
+    + apply inv1_setk. apply inv1_neutral; [intro th; repeat split | auto].
+    + unfold setk. apply head_run_neutral; [intro th; repeat split|].
+      apply head_run_neutral; [intro th; repeat split | auto].
+Qed.
+
+Ltac neutral := apply inv1_neutral; [intro th; repeat split | auto].
+Ltac hr_neutral := apply head_run_neutral; [intro th; repeat split | auto].
+
+Lemma inv1_exec_op : forall progs s v c o, Inv1 s -> head_run s v -> Inv1 (exec_op progs s v c o).
+Proof.
+  intros progs s v c o I Hr. unfold exec_op, getth, getvc.
+  destruct o as [d| |j e|j jn ws|j| | |j|j u].
+  - (* usleep *)
+    destruct (th_k (s_th s c)) as [|[|k]].
+    + destruct (expired _ _).
+      * apply inv1_yield; [now apply inv1_setk|]. unfold setk. hr_neutral.
+      * destruct (lock_free _); auto.
+        apply inv1_do_sleep; [now apply inv1_setk|]. unfold setk. hr_neutral.
+    + pose proof (inv1_sen s c I) as X. destruct (set_error_number s c) as [[s1 r] e]. cbn in X. now apply inv1_ret.
+    + destruct (Z.eqb _ 0); now apply inv1_ret.
+  - (* yield *)
+    destruct (th_k (s_th s c)).
+    + apply inv1_yield; [now apply inv1_setk|]. unfold setk. hr_neutral.
+    + now apply inv1_ret.
+  - (* interrupt *)
+    destruct (alive progs s j); [|now apply inv1_ret].
+    destruct (do_interrupt s v j e) as [s1|] eqn:D; auto.
+    apply inv1_ret. eapply inv1_interrupt; eauto.
+  - (* create *)
+    destruct (_ && _) eqn:C; [|now apply inv1_ret].
+    apply inv1_ret. apply inv1_do_create; auto.
+    apply andb_true_iff in C. destruct C as [_ C]. unfold getth in C.
+    destruct (th_state (s_th s j)); try discriminate; reflexivity.
+  - (* join *)
+    destruct (th_k (s_th s c)) as [|[|k]].
+    + destruct (_ && _); [|now apply inv1_ret]. apply inv1_setk. neutral.
+    + now apply inv1_join_check.
+    + pose proof (inv1_sen s c I) as X. destruct (set_error_number s c) as [[s1 r] e]. cbn in X. now apply inv1_setk.
+  - now apply inv1_ret.
+  - now apply inv1_ret.
+  - destruct (_ && _); now apply inv1_ret.
+  - (* migrate *)
+    destruct (th_k (s_th s c)); [|now apply inv1_ret].
+    destruct (negb _); [now apply inv1_ret|].
+    destruct (Nat.eqb u v); [now apply inv1_ret|].
+    destruct (Nat.eqb j c).
+    { apply inv1_yield; [now apply inv1_setk|]. unfold setk. hr_neutral. }
+    destruct (negb _); [now apply inv1_ret|].
+    destruct (negb _); [now apply inv1_ret|].
+    destruct (do_migrate s v j u) as [[s1 [|]]|] eqn:M; auto; apply inv1_ret; eapply inv1_do_migrate; eauto.
+Qed.
+
+Lemma inv1_step_vcpu : forall progs s v, Inv1 s -> Inv1 (step_vcpu progs s v).
+Proof.
+  intros progs s v I. unfold step_vcpu, getvc, getth.
+  destruct (negb _). { now apply inv1_exec_pend. }
+  destruct (v_runq (s_vc s v)) as [|c rest] eqn:Hq. { apply (inv1_same s); auto. }
+  destruct (th_state (s_th s c)) eqn:Es; try (apply (inv1_same s); auto; fail).
+  assert (Hr : head_run s v). { intros c' r' E. rewrite Hq in E. inversion E; subst. auto. }
+  destruct (th_kind (s_th s c)).
+  - (* main *)
+    destruct (nth_error _ _); [now apply inv1_exec_op|].
+    destruct (th_k (s_th s c)).
+    + destruct (lock_free _); auto. apply inv1_do_sleep; [now apply inv1_setk|]. unfold setk. hr_neutral.
+    + pose proof (inv1_sen s c I) as X. destruct (set_error_number s c) as [[s1 r] e]. cbn in X. now apply inv1_setk.
+  - (* idler *)
+    destruct rest; auto. apply inv1_yield; auto.
+  - (* user *)
+    destruct (nth_error _ _); [now apply inv1_exec_op|].
+    destruct (do_die s v _) as [s1|] eqn:D; auto. eapply inv1_do_die; eauto.
+Qed.
+
+Lemma inv1_do_drain : forall s v, Inv1 s -> Inv1 (do_drain s v).
+Proof. intros. unfold do_drain. now apply inv1_drain_list. Qed.
+
+Lemma inv1_do_resume : forall s v, Inv1 s -> Inv1 (do_resume s v).
+Proof.
+  intros s v I. unfold do_resume, getvc, getth.
+  destruct (v_sleepq (s_vc s v)) as [|t rest] eqn:Hq; auto.
+  destruct (Z.ltb _ _); auto. destruct (negb _); auto.
+  assert (Hc : cnt t (v_sleepq (s_vc s v)) >= 1) by (rewrite Hq; apply cnt_head).
+  destruct (tstate_eqb (th_state (s_th s t)) SLEEPING) eqn:Es.
+  - assert (Es' : th_state (s_th s t) = SLEEPING) by (destruct (th_state (s_th s t)); try discriminate; reflexivity).
+    destruct (in_sleepq_facts s t v (i_placed _ I t v) Hc) as (l1 & l2 & _).
+    pose proof (inv1_dequeue s t I) as I1. destruct (dequeue_self s t) as (d1 & d2 & d3).
+    apply (inv1_wake_same (dequeue s t) v t I1); congruence.
+  - apply inv1_resume_pop; auto. intro E. rewrite E in Es. discriminate.
+Qed.
+
+Lemma inv1_do_steal : forall s v u t, Inv1 s -> Inv1 (do_steal s v u t).
+Proof.
+  intros s v u t I. unfold do_steal, getth, getvc.
+  destruct (negb _) eqn:G; auto. apply negb_false_iff in G.
+  repeat (apply andb_true_iff in G; destruct G as [G ?]).
+  assert (Nuv : u <> v).
+  { match goal with H : negb (Nat.eqb u v) = true |- _ => apply negb_true_iff in H; now apply Nat.eqb_neq in H end. }
+  assert (Hi : th_insleep (s_th s t) = false).
+  { match goal with H : stealable _ = true |- _ => unfold stealable in H; apply andb_true_iff in H; destruct H as [_ H];
+      now apply negb_true_iff in H end. }
+  destruct (mem_tid t (v_standby (s_vc s u))) eqn:M1.
+  - apply mem_cnt in M1.
+    apply (inv1_steal s v u t true (fun x => (v_nthreads x - 1)%Z) (fun x => (v_nthreads x + 1)%Z)); auto.
+  - destruct (_ && _) eqn:M2; auto. apply andb_true_iff in M2. destruct M2 as [M2 M3]. apply mem_cnt in M2.
+    apply (inv1_steal s v u t false (fun x => (v_nthreads x - 1)%Z) (fun x => (v_nthreads x + 1)%Z)); auto.
+    split; auto. intro E. rewrite E in M3. discriminate.
+Qed.
+
+Lemma inv1_step : forall progs s l, Inv1 s -> Inv1 (step progs s l).
+Proof.
+  intros progs s l I. unfold step. destruct (s_stuck s); auto.
+  destruct l as [v|v|v|v u t|d].
+  - destruct (Nat.ltb _ _); auto. now apply inv1_step_vcpu.
+  - destruct (_ && _); auto. now apply inv1_do_drain.
+  - destruct (_ && _); auto. now apply inv1_do_resume.
+  - destruct (_ && _); auto. now apply inv1_do_steal.
+  - destruct (Z.leb _ _); auto. apply (inv1_same s); auto.
+Qed.
+
+Lemma inv1_run : forall progs ls s, Inv1 s -> Inv1 (run progs s ls).
+Proof. induction ls; cbn; intros; auto. apply IHls. now apply inv1_step. Qed.
+
+Lemma init_thread_cases : forall nv n t, nv <= n ->
+  (t < nv /\ init_thread nv n t = mkT RUNNING t KMain 0 0 false None [] false false LFree 0 0 0 false false 1 0 0 0 0) \/
+  (n <= t < n + nv /\ init_thread nv n t = mkT READY (t - n) KIdler 0 0 false None [] true false LFree 0 0 0 false true 0 0 0 0 0) \/
+  (nv <= t /\ (t < n \/ n + nv <= t) /\ init_thread nv n t = thread0).
+Proof.
+  intros nv n t Hn. unfold init_thread.
+  destruct (Nat.ltb t nv) eqn:E1.
+  - apply Nat.ltb_lt in E1. left. auto.
+  - apply Nat.ltb_ge in E1. destruct (Nat.leb n t) eqn:E2; cbn [andb].
+    + apply Nat.leb_le in E2. destruct (Nat.ltb t (n + nv)) eqn:E3.
+      * apply Nat.ltb_lt in E3. right. left. auto.
+      * apply Nat.ltb_ge in E3. right. right. auto.
+    + apply Nat.leb_gt in E2. right. right. auto.
+Qed.
+Lemma init_vcpu_cases : forall nv n flags v,
+  (v < nv /\ v_runq (init_vcpu nv n flags v) = [v; n + v] /\ v_sleepq (init_vcpu nv n flags v) = [] /\ v_standby (init_vcpu nv n flags v) = []) \/
+  (nv <= v /\ init_vcpu nv n flags v = vcpu0).
+Proof.
+  intros. unfold init_vcpu. destruct (Nat.ltb v nv) eqn:E.
+  - apply Nat.ltb_lt in E. left. auto.
+  - apply Nat.ltb_ge in E. right. auto.
+Qed.
+
+Ltac eqbf a b := replace (Nat.eqb a b) with false by (symmetry; apply Nat.eqb_neq; lia).
+Lemma inv1_init : forall nv n flags t0, nv <= n -> Inv1 (init_state nv n flags t0).
+Proof.
+  intros nv n flags t0 Hn. constructor.
+  - intros t v. unfold placed, init_state. cbn [s_th s_vc].
+    destruct (init_thread_cases nv n t Hn) as [[T1 ->]|[[T1 ->]|(T1 & T2 & ->)]];
+    destruct (init_vcpu_cases nv n flags v) as [(V1 & -> & -> & ->)|[V1 ->]];
+      cbn [live th_state th_vcpu th_insleep tstate_eqb negb andb thread0 vcpu0 v_runq v_sleepq v_standby place_ok];
+      rewrite ?cnt_cons, ?cnt_nil.
+    + destruct (Nat.eqb t v) eqn:E; neq_tac.
+      * subst v. rewrite Nat.eqb_refl. eqbf (n + t) t. lia.
+      * eqbf v t. eqbf (n + v) t. auto.
+    + eqbf t v. auto.
+    + destruct (Nat.eqb (t - n) v) eqn:E; neq_tac.
+      * subst v. eqbf (t - n) t. replace (n + (t - n)) with t by lia. rewrite Nat.eqb_refl. lia.
+      * eqbf v t. eqbf (n + v) t. auto.
+    + eqbf (t - n) v. auto.
+    + eqbf v t. eqbf (n + v) t. auto.
+    + auto.
+  - intros j x. unfold waits, init_state. cbn [s_th].
+    destruct (init_thread_cases nv n j Hn) as [[_ ->]|[[_ ->]|(_ & _ & ->)]];
+    destruct (init_thread_cases nv n x Hn) as [[_ ->]|[[_ ->]|(_ & _ & ->)]];
+      cbn; (split; [reflexivity|congruence]).
+Qed.
+
+(* ---- the theorems about placement ---------------------------------------------------------- *)
+Definition reachable (progs : tid -> list op) (nv n : nat) (flags : nat -> bool * bool) (t0 : Z) (s : state) : Prop :=
+  exists ls, s = run progs (init_state nv n flags t0) ls.
+
+Lemma reachable_inv1 : forall progs nv n flags t0 s, nv <= n -> reachable progs nv n flags t0 s -> Inv1 s.
+Proof. intros progs nv n flags t0 s Hn [ls ->]. apply inv1_run. now apply inv1_init. Qed.
+
+(* placement_unique: in every reachable state, for every thread t and every vCPU v, the numbers of
+   occurrences of t in v's run / sleep / standby queue are exactly those dictated by t's own state
+   and vCPU: a live thread is in exactly one place of its own vCPU (plus the documented
+   sleep-queue/standby-queue overlap), in no queue of any other vCPU, and a thread that does not
+   exist (any more) is in no queue at all *)
+Lemma placement_unique_proof : forall progs nv n flags t0 s, nv <= n -> reachable progs nv n flags t0 s ->
+  forall t v, placed s t v.
+Proof. intros. eapply i_placed, reachable_inv1; eauto. Qed.
+
+(* the same, read as "exactly one": occurrences over ALL vCPUs and queues *)
+Lemma placement_exactly_one_proof : forall progs nv n flags t0 s, nv <= n -> reachable progs nv n flags t0 s ->
+  forall t, live (s_th s t) = true ->
+    let v := th_vcpu (s_th s t) in
+    cnt t (v_runq (s_vc s v)) + cnt t (v_sleepq (s_vc s v)) +
+      (if th_insleep (s_th s t) then 0 else cnt t (v_standby (s_vc s v))) = 1 /\
+    (forall u, u <> v -> cnt t (v_runq (s_vc s u)) = 0 /\ cnt t (v_sleepq (s_vc s u)) = 0 /\ cnt t (v_standby (s_vc s u)) = 0).
+Proof.
+  intros progs nv n flags t0 s Hn R t L v.
+  pose proof (reachable_inv1 _ _ _ _ _ _ Hn R) as I. split.
+  - generalize (i_placed _ I t v). unfold placed. rewrite L. fold v. rewrite Nat.eqb_refl. cbn.
+    unfold place_ok. destruct (th_state (s_th s t)), (th_insleep (s_th s t)); try tauto; lia.
+  - intros u Nu. generalize (i_placed _ I t u). unfold placed. rewrite L. fold v.
+    assert (Nat.eqb v u = false) as -> by (apply Nat.eqb_neq; congruence). auto.
+Qed.
+
+(* not lost / not resurrected: a thread is in some queue iff it exists and is not DONE *)
+Lemma placed_iff_live_proof : forall progs nv n flags t0 s, nv <= n -> reachable progs nv n flags t0 s ->
+  forall t, (exists v, cnt t (v_runq (s_vc s v)) + cnt t (v_sleepq (s_vc s v)) + cnt t (v_standby (s_vc s v)) >= 1)
+            <-> live (s_th s t) = true.
+Proof.
+  intros progs nv n flags t0 s Hn R t.
+  pose proof (reachable_inv1 _ _ _ _ _ _ Hn R) as I. split.
+  - intros [v H]. generalize (i_placed _ I t v). unfold placed.
+    destruct (live (s_th s t)); auto. cbn. lia.
+  - intro L. exists (th_vcpu (s_th s t)).
+    destruct (placement_exactly_one_proof _ _ _ _ _ _ Hn R t L) as [H _]. cbn in H.
+    destruct (th_insleep (s_th s t)); lia.
+Qed.
+
+(* one_vcpu_at_a_time (queue level): a thread is never the CURRENT thread of two vCPUs, and the
+   CURRENT thread of a vCPU always exists and is not DONE *)
+Lemma one_vcpu_at_a_time_proof : forall progs nv n flags t0 s, nv <= n -> reachable progs nv n flags t0 s ->
+  forall v v' t, cur s v = Some t -> cur s v' = Some t ->
+    v = v' /\ live (s_th s t) = true /\ th_vcpu (s_th s t) = v.
+Proof.
+  intros progs nv n flags t0 s Hn R v v' t C1 C2.
+  pose proof (reachable_inv1 _ _ _ _ _ _ Hn R) as I.
+  unfold cur, getvc in *.
+  destruct (v_runq (s_vc s v)) as [|a r] eqn:Q1; [discriminate|]. inversion C1; subst a.
+  destruct (v_runq (s_vc s v')) as [|a r'] eqn:Q2; [discriminate|]. inversion C2; subst a.
+  assert (H1 : cnt t (v_runq (s_vc s v)) >= 1) by (rewrite Q1; apply cnt_head).
+  assert (H2 : cnt t (v_runq (s_vc s v')) >= 1) by (rewrite Q2; apply cnt_head).
+  destruct (in_runq_facts s t v (i_placed _ I t v) H1) as (a1 & a2 & _).
+  destruct (in_runq_facts s t v' (i_placed _ I t v') H2) as (b1 & b2 & _).
+  repeat split; congruence.
+Qed.
+
+(* a thread waiting in a join queue is SLEEPING (so it is in the sleep queue of its vCPU and will be
+   found by thread::die's notify_one) and is in that one queue only *)
+Lemma join_queue_proof : forall progs nv n flags t0 s, nv <= n -> reachable progs nv n flags t0 s ->
+  forall j x, cnt j (th_joiners (s_th s x)) >= 1 ->
+    th_state (s_th s j) = SLEEPING /\ th_waitq (s_th s j) = Some x /\ cnt j (th_joiners (s_th s x)) = 1.
+Proof.
+  intros progs nv n flags t0 s Hn R j x H.
+  pose proof (reachable_inv1 _ _ _ _ _ _ Hn R) as I.
+  destruct (i_waits _ I j x) as [A B].
+  destruct (th_waitq (s_th s j)) as [w|] eqn:W; cbn [opt_eqb] in A.
+  - destruct (Nat.eqb w x) eqn:E; [|lia]. neq_tac. subst w. repeat split; auto. apply B. discriminate.
+  - lia.
+Qed.
+
+(* ---- stack level: refuted (finding F20) ------------------------------------------------------
+   `phys s v` is the thread whose stack vCPU v is physically executing on: after the queue block of
+   a context switch and until its pending part (context save) has run, that is still the OLD
+   thread, which is already READY in the run queue.  A thief may take it in that window and switch
+   to it: two vCPUs are then on the same stack.  Witness: vCPU 0 (passive) runs thread 2
+   (stealable) which yields; before vCPU 0 saves the context, vCPU 1 (active, idle) steals thread 2
+   and switches to it. *)
+Definition f20_progs : tid -> list op :=
+  fun t => match t with
+           | 0 => [OCreate 2 true true; OYield]
+           | 1 => [OUsleep 1000]
+           | 2 => [OYield; ONop]
+           | _ => []
+           end.
+Definition f20_flags : nat -> bool * bool := fun v => match v with 0 => (false, true) | _ => (true, false) end.
+Definition f20_schedule : list label :=
+  [ LStep 0;            (* main of vCPU 0: create 2 *)
+    LStep 0;            (* main of vCPU 0: yield -> queue block, CURRENT := idler ... *)
+    LStep 0;            (*   pending part: context of main saved *)
+    LStep 0;            (* idler of vCPU 0 yields: CURRENT := thread 2 *)
+    LStep 0;            (*   pending part *)
+    LStep 1; LStep 1;   (* main of vCPU 1 goes to sleep (queue block + pending part): its idler runs *)
+    LStep 0;            (* thread 2: thread_yield(): queue block done (READY, run-queue lock released) ... *)
+    LSteal 1 0 2;       (* ... vCPU 1 steals thread 2 BEFORE vCPU 0 has saved its context *)
+    LStep 1;            (* idler of vCPU 1 yields: CURRENT := thread 2 *)
+    LStep 1 ].          (*   pending part: vCPU 1 now executes on the stack of thread 2 *)
+
+Lemma stack_exclusive_refuted_proof :
+  exists s, reachable f20_progs 2 3 f20_flags 1000 s /\
+            phys s 0 = Some 2 /\ phys s 1 = Some 2 /\ s_stuck s = false.
+Proof.
+  exists (run f20_progs (init_state 2 3 f20_flags 1000) f20_schedule).
+  split; [exists f20_schedule; reflexivity|]. vm_compute. auto.
 Qed.
